@@ -61,6 +61,10 @@ package apply
 //@   bind call detectListMapKey: mergeKey
 //@   at mergeListMap(p, k, d, l, s) [C05]: k == mergeKey && k != "" && d == destination && l == lastApplied && s == desired
 //@   ensures [C05] mergeKey == "" ==> err == nil && typeis(res, []interface{}) && unbox(res, []interface{}) == desired && !called(mergeListMap)
+//@   // the list-map question is always asked (of all three lists), and a list map is always merged entry by entry - also when
+//@   // the desired list is empty: entries others added to a name-keyed list survive
+//@   ensures [C05] count(detectListMapKey) == 1
+//@   ensures [C05] mergeKey != "" ==> count(mergeListMap) == 1
 //@   ensures [C05] err != nil ==> res == nil
 
 // Merge: works on a deep copy of observed (so observed is never written), hands the three trees to merge unchanged, and
